@@ -65,6 +65,8 @@ type seqRun struct {
 	gone      [2]map[int]string // why a CID last left asked: cancel / full-replace / disconnect / delivered
 	oblig     [2]map[int]bool   // accepted wants for an absent block with send_dont_have that still wait for any answer
 	squeezed  [2]map[int]bool   // classification aid: wants whose task was dropped by a push into a full task queue
+	orphan    [2]map[int]bool   // classification aid: CIDs with a queued task but no want-list entry on the server
+	goneOrph  [2]map[int]bool   // ... and whether that was so when the peer cancelled the want
 	connected [2]bool
 	deleted   [nCids]bool // removed from the store by a del operation
 	req       <-chan *decision.Envelope
@@ -75,6 +77,7 @@ type seqRun struct {
 	viols   []*eng.Violation // violations raised by the LAST operation of the script (and by the final drain)
 	fatal   bool             // scheduler-level failure: the state is not expanded
 	key     string
+	preKey  string
 	enabled []string
 	cov     map[string]int
 	outcome string
@@ -103,6 +106,8 @@ func (x *seqRun) Main() {
 		x.gone[i] = map[int]string{}
 		x.oblig[i] = map[int]bool{}
 		x.squeezed[i] = map[int]bool{}
+		x.orphan[i] = map[int]bool{}
+		x.goneOrph[i] = map[int]bool{}
 	}
 	x.w = newWorld(x.cfg)
 	vsched.WaitIdle()
@@ -111,6 +116,7 @@ func (x *seqRun) Main() {
 		x.viols = nil
 		if i == len(x.ops)-1 {
 			x.cov = map[string]int{} // coverage counters describe the last operation (plus the drain) only
+			x.preKey = x.stateKey()
 		}
 		x.step(op)
 		if i == len(x.ops)-1 {
@@ -288,6 +294,12 @@ func (x *seqRun) judge(env *decision.Envelope) {
 		}
 		return "never-asked"
 	}
+	whyOrStill := func(c int) string {
+		if _, ok := x.asked[r][c]; ok {
+			return "still-wanted"
+		}
+		return why(c)
+	}
 	for _, b := range env.Message.Blocks() {
 		c := cidIdx(b.Cid())
 		x.count("blocks_sent")
@@ -298,7 +310,7 @@ func (x *seqRun) judge(env *decision.Envelope) {
 			x.fail(eng.V("block-denied-by-filter", "", fmt.Sprintf("block %s sent to p%d although the request filter denies it", cname(c), r+1)))
 		}
 		if _, ok := x.asked[r][c]; !ok {
-			x.fail(eng.V("block-not-wanted", "", fmt.Sprintf("block %s sent to p%d whose current want-list %s does not contain it (it left the want-list by: %s)", cname(c), r+1, fmtWants(x.asked[r]), why(c)), "want_removed_by", why(c)))
+			x.fail(eng.V("block-not-wanted", "", fmt.Sprintf("block %s sent to p%d whose current want-list %s does not contain it (it left the want-list by: %s)", cname(c), r+1, fmtWants(x.asked[r]), why(c)), "want_removed_by", why(c), "task_without_wantlist_entry_at_cancel", fmt.Sprint(why(c) == "cancel" && x.goneOrph[r][c])))
 		}
 		delete(x.oblig[r], c)
 	}
@@ -319,10 +331,10 @@ func (x *seqRun) judge(env *decision.Envelope) {
 	for _, c := range h.donts {
 		x.count("dont_haves_sent")
 		if w.serves(r, c) {
-			x.fail(eng.V("dont-have-for-present-block", "", fmt.Sprintf("DONT_HAVE %s sent to p%d although the block is in the blockstore and permitted", cname(c), r+1), "cid_kind", kind(c), "task_dropped_queue_at_limit", fmt.Sprint(x.squeezed[r][c])))
+			x.fail(eng.V("dont-have-for-present-block", "", fmt.Sprintf("DONT_HAVE %s sent to p%d although the block is in the blockstore and permitted", cname(c), r+1), "cid_kind", kind(c), "task_dropped_queue_at_limit", fmt.Sprint(x.squeezed[r][c]), "want_removed_by", whyOrStill(c)))
 		}
 		if a, ok := x.asked[r][c]; !ok || !a.dh {
-			x.fail(eng.V("dont-have-not-requested", "", fmt.Sprintf("DONT_HAVE %s sent to p%d which did not ask for it (want-list %s; left by: %s)", cname(c), r+1, fmtWants(x.asked[r]), why(c)), "want_removed_by", why(c)))
+			x.fail(eng.V("dont-have-not-requested", "", fmt.Sprintf("DONT_HAVE %s sent to p%d which did not ask for it (current want-list %s; an earlier want for it left the list by: %s)", cname(c), r+1, fmtWants(x.asked[r]), why(c)), "want_removed_by", why(c)))
 		}
 		delete(x.oblig[r], c)
 	}
@@ -405,6 +417,7 @@ func (x *seqRun) recv(r int, spec string) {
 		if e.cancel {
 			if _, ok := x.asked[r][e.c]; ok {
 				x.gone[r][e.c] = "cancel"
+				x.goneOrph[r][e.c] = x.orphan[r][e.c]
 			}
 			delete(x.asked[r], e.c)
 			if e.c != cI && e.c != cO {
@@ -414,8 +427,8 @@ func (x *seqRun) recv(r int, spec string) {
 		}
 		// send_dont_have is sticky while the want stays on the list (as in the message type itself)
 		old, had := x.asked[r][e.c]
-		x.asked[r][e.c] = want{e.prio, e.have, e.dh || (had && old.dh)}
-		delete(x.gone[r], e.c)
+		// ... and so is a want-block (a later want-have does not take the request for the block back)
+		x.asked[r][e.c] = want{e.prio, e.have && (!had || old.have), e.dh || (had && old.dh)}
 		if e.c == cI || e.c == cO {
 			x.count("ignored_cid_entries")
 			continue
@@ -446,8 +459,15 @@ func (x *seqRun) recv(r int, spec string) {
 	vsched.WaitIdle()
 	post := w.ledger(r)
 	x.logf("  want-list of p%d: %s -> %s", r+1, fmtLedger(pre), fmtLedger(post))
+	zeroInvolved := false
+	if _, ok := pre[cZ]; ok {
+		zeroInvolved = true
+	}
+	if _, ok := wants[cZ]; ok {
+		zeroInvolved = true
+	}
 	feat := func(kv ...string) []string {
-		return append(kv, "full_message", fmt.Sprint(ms.full), "cut_at_limit", fmt.Sprint(truncated))
+		return append(kv, "full_message", fmt.Sprint(ms.full), "cut_at_limit", fmt.Sprint(truncated), "empty_block_involved", fmt.Sprint(zeroInvolved))
 	}
 	// (limit) the queued want-list never exceeds L
 	if len(post) > L {
@@ -483,7 +503,9 @@ func (x *seqRun) recv(r int, spec string) {
 			newcomers++
 		}
 		if _, ok := post[c]; !ok {
-			rejected = append(rejected, c)
+			if !was { // (a want that was on the list before and is gone now counts as evicted)
+				rejected = append(rejected, c)
+			}
 		} else if !was {
 			admitted = append(admitted, c)
 		}
@@ -572,9 +594,9 @@ func (x *seqRun) recv(r int, spec string) {
 			if _, upd := wants[s]; upd {
 				continue
 			}
-			if !hadBlock[s] {
+			if !hadBlock[s] && hadBlock[n] {
 				x.fail(eng.V("newcomer-rejected", "MessageReceived", fmt.Sprintf("newcomer %s was turned away although the older want %s without a local block kept its place: %s", cname(n), cname(s), desc), feat("kept", "blockless")...))
-			} else if eff(s) < wants[n].prio {
+			} else if hadBlock[s] && eff(s) < wants[n].prio {
 				x.fail(eng.V("newcomer-rejected", "MessageReceived", fmt.Sprintf("newcomer %s (priority %d) was turned away although the older lower-priority want %s (priority %d) kept its place: %s", cname(n), wants[n].prio, cname(s), eff(s), desc), feat("kept", "lower-priority")...))
 			}
 		}
@@ -585,18 +607,43 @@ func (x *seqRun) recv(r int, spec string) {
 			delete(x.oblig[r], c)
 		}
 	}
-	nPushed := deniedDH
+	// upper bound of the number of tasks this message pushes (classification only)
+	nPushed := deniedDH + len(wants)
 	for c, e := range wants {
-		if _, ok := post[c]; ok {
-			if e.dh && !w.serves(r, c) {
-				x.oblig[r][c] = true
-			}
-			if e.dh || (w.store[c] && c != cZ) {
-				nPushed++
-			}
+		if _, ok := post[c]; ok && e.dh && !w.serves(r, c) && !x.answerInFlight(r, c) {
+			x.oblig[r][c] = true
 		}
 	}
 	x.markSqueezed(r, pendBefore+nPushed > L)
+	x.markOrphans(r)
+}
+
+// markOrphans records (classification only) the CIDs of a peer that have a pending task in the
+// request queue although the server's want-list has no entry for them (and the filter permits them).
+func (x *seqRun) markOrphans(r int) {
+	x.orphan[r] = map[int]bool{}
+	t := x.w.e.VerifQueue().VerifTracker(x.w.ids[r])
+	if t == nil {
+		return
+	}
+	l := x.w.ledger(r)
+	for _, q := range t.VerifPending() {
+		c := cidIdx(q.Topic.(cid.Cid))
+		if _, ok := l[c]; !ok && permitted(r, c) {
+			x.orphan[r][c] = true
+			x.count("queued_tasks_without_wantlist_entry")
+		}
+	}
+}
+
+// answerInFlight: an envelope that the receiver holds but has not sent yet already tells the peer about c.
+func (x *seqRun) answerInFlight(r, c int) bool {
+	for _, h := range x.held {
+		if h.role == r && !h.dead && (contains(h.blocks, c) || contains(h.haves, c) || contains(h.donts, c)) {
+			return true
+		}
+	}
+	return false
 }
 
 // pendingCount is the number of tasks queued (not yet popped) for a peer.
@@ -621,24 +668,23 @@ func (x *seqRun) markSqueezed(r int, pushOverLimit bool) {
 		return
 	}
 	t := x.w.e.VerifQueue().VerifTracker(x.w.ids[r])
-	for c := range l {
-		need := x.w.store[c] // a task that knows the block is there
+	for c, le := range l {
+		need := x.w.store[c] && c != cZ                                  // a task that knows the block is there ...
+		needWB := need && (!le.have || (x.cfg.R > 0 && poolSize[c] <= x.cfg.R)) // ... and that it has to go out as a block
+		ok := func(d peertask.Data) bool {
+			wb, _, hb, _ := decision.VerifTaskData(d)
+			return (hb || !need) && (wb || !needWB)
+		}
 		found := false
 		if t != nil {
 			for _, q := range t.VerifPending() {
-				if cidIdx(q.Topic.(cid.Cid)) == c {
-					_, _, hb, _ := decision.VerifTaskData(q.Data)
-					if hb || !need {
-						found = true
-					}
+				if cidIdx(q.Topic.(cid.Cid)) == c && ok(q.Data) {
+					found = true
 				}
 			}
 			for _, q := range t.VerifActive() {
-				if cidIdx(q.Topic.(cid.Cid)) == c {
-					_, _, hb, _ := decision.VerifTaskData(q.Data)
-					if hb || !need {
-						found = true
-					}
+				if cidIdx(q.Topic.(cid.Cid)) == c && ok(q.Data) {
+					found = true
 				}
 			}
 		}
@@ -709,7 +755,7 @@ func (x *seqRun) drain() {
 	for r := 0; r < 2; r++ {
 		l := x.w.ledger(r)
 		for c := range l {
-			if x.w.serves(r, c) {
+			if _, still := x.asked[r][c]; still && x.w.serves(r, c) {
 				kind := "normal"
 				if c == cZ {
 					kind = "empty-block"
@@ -718,7 +764,7 @@ func (x *seqRun) drain() {
 			}
 		}
 		for c := range x.oblig[r] {
-			x.fail(eng.V("dont-have-unanswered", "quiescence", fmt.Sprintf("p%d's accepted want %s with send_dont_have for an absent block never got an answer (want-list %s)\n%s", r+1, cname(c), fmtLedger(l), x.queueDump()), "task_dropped_queue_at_limit", fmt.Sprint(x.squeezed[r][c])))
+			x.fail(eng.V("dont-have-unanswered", "quiescence", fmt.Sprintf("p%d's accepted want %s with send_dont_have for an absent block never got an answer (want-list %s)\n%s", r+1, cname(c), fmtLedger(l), x.queueDump()), "task_dropped_queue_at_limit", fmt.Sprint(x.squeezed[r][c]), "deleted_after_want", fmt.Sprint(x.deleted[c])))
 		}
 	}
 }
@@ -757,6 +803,14 @@ func (x *seqRun) stateKey() string {
 		}
 		sort.Ints(sq)
 		sb.WriteString(" sq=" + names(sq))
+		var og []int
+		for c, v := range x.goneOrph[r] {
+			if v {
+				og = append(og, c)
+			}
+		}
+		sort.Ints(og)
+		sb.WriteString(" og=" + names(og))
 	}
 	fmt.Fprintf(&sb, "|req=%v held=", x.req != nil)
 	for _, h := range x.held {
